@@ -16,6 +16,7 @@ SeqRm(a, b)     == [name |-> "sequence_rm", mode |-> "json", a |-> a, b |-> b]
 Prune           == [name |-> "prune", mode |-> "json", yes |-> TRUE]
 Compact         == [name |-> "compact", mode |-> "json", again |-> FALSE]
 NewTask         == TC("new_task", "", ABSENT, ABSENT, "")
+NewTaskIn(e)    == [TC("new_task", "", ABSENT, ABSENT, "") EXCEPT !.epic = e]
 NewTaskClaim(a) == TC("new_task", "", ABSENT, a, a)
 SetState(i, s, a) == TC("set", i, s, ABSENT, a)
 PlanAB == [name |-> "plan", mode |-> "json", newids |-> <<"i7", "i8", "i9">>,
@@ -30,6 +31,8 @@ L_epic == <<EvNew("epic", "i1", "", "todo", "E1", "", 1), EvNew("task", "i2", "i
 L_done == <<EvNew("task", "i1", "", "todo", "T1", "", 1), EvNew("task", "i2", "", "todo", "T2", "", 2),
             EvState("i1", "done", 3)>>
 L_one  == <<EvNew("task", "i1", "", "todo", "T1", "", 1)>>
+L_emptyepic == <<EvNew("epic", "i1", "", "todo", "E1", "", 1), EvNew("task", "i2", "", "todo", "T2", "", 2)>>
+L_empty == <<>>
 
 S(name, init, cmds, readers) == [name |-> name, init |-> init, cmds |-> cmds, readers |-> readers, nolock |-> FALSE]
 SN(name, init, cmds, readers) == [name |-> name, init |-> init, cmds |-> cmds, readers |-> readers, nolock |-> TRUE]
@@ -62,8 +65,19 @@ PairScenarios == {
   S("compact-claim", L_done, P2(Compact, Claim("a1")), {}),
   S("plan-new",      L_one,  P2(PlanAB, NewTask), {}),
   S("plan-compact",  L_done, P2(PlanAB, Compact), {}),
-  SN("new-set-nolock", L_two, P2(NewTask, SetState("i1", "done", "")), {})
+  SN("new-set-nolock", L_two, P2(NewTask, SetState("i1", "done", "")), {}),
+  SN("claimid-claim-nolock", L_two, P2(ClaimId("i1", "a1"), Claim("a2")), {}),
+  S("badset-new",    L_done, P2(SetState("i1", "doing", "a1"), NewTask), {}),
+  S("badseq-new",    L_two,  P2(SeqC(<<"i1", "i2", "zz">>), NewTask), {}),
+  S("prune-setdone", L_done, P2(Prune, SetState("i2", "done", "")), {}),
+  S("prune-newchild", L_emptyepic, P2(Prune, NewTaskIn("i1")), {}),
+  S("compact-new",   L_done, P2(Compact, NewTask), {})
 }
+
+\* subsets of the menu, for the properties whose concurrent half they exercise
+SeqScenarios   == {x \in PairScenarios : x.name \in {"seq-seqrev", "chain-seq", "seq-rm"}}
+PruneScenarios == {x \in PairScenarios : x.name \in {"prune-reopen", "prune-prune", "prune-setdone", "prune-newchild"}}
+FailScenarios  == {x \in PairScenarios : x.name \in {"badset-new", "badseq-new", "claimid-claim", "set-set"}}
 
 ReaderScenarios == {
   S("r-new",     L_one,  P1(NewTask), {"r1"}),
@@ -81,7 +95,10 @@ CrashScenarios == {
   S("k-prune",   <<EvNew("task", "i1", "", "todo", "T1", "", 1), EvNew("task", "i2", "", "todo", "T2", "", 2),
                    EvState("i1", "done", 3), EvState("i2", "canceled", 4)>>, P1(Prune), {}),
   S("k-compact", L_done, P1(Compact), {}),
-  S("k-plan",    L_one,  P1(PlanAB), {})
+  S("k-plan",    L_one,  P1(PlanAB), {}),
+  S("k-plan-empty", L_empty, P1(PlanAB), {}),
+  S("k-seq",     L_epic, P1(SeqC(<<"i2", "i3">>)), {}),
+  S("k-set3",    L_two,  P1([TC("set", "i1", "done", ABSENT, "") EXCEPT !.title = "renamed", !.body = "text"]), {})
 }
 
 AllScenarios == ClaimScenarios \cup PairScenarios \cup ReaderScenarios \cup CrashScenarios
